@@ -93,11 +93,7 @@ func checkC18(c *Ctx, r *Report) {
 			r4.guard(f, "return nil", rets, "verified", edgeBool(isValue(flag), true), nil)
 			es := phiEdgesWhere(flag, func(v ssa.Value) bool { b, ok := constBool(v); return ok && b })
 			sha2 := constIntObj(c, "github.com/multiformats/go-multihash", "SHA2_256")
-			codeEq := edgeCmp(func(b *ssa.BinOp) bool {
-				n, ok := constInt(b.Y)
-				fl, _ := loadOfField(strip2(b.X))
-				return ok && n == sha2 && b.Op == token.EQL && fl != nil && fl.Name() == "Code"
-			}, true)
+			codeEq := edgeIntBound(func(v ssa.Value) bool { fl, _ := loadOfField(strip2(v)); return fl != nil && fl.Name() == "Code" }, sha2, sha2, false)
 			digEq := edgeBool(func(v ssa.Value) bool {
 				ci := isResultOfCall(v, 0, "bytes.Equal")
 				if ci == nil {
@@ -445,11 +441,10 @@ func checkC18(c *Ctx, r *Report) {
 	}
 	if f := r5.need("(*" + wtPkg + ".transport).dialWithScope"); f != nil {
 		dials := findInstrs(f, callPred("(*"+wtPkg+".transport).dial"))
-		r5.guard(f, "t.dial", dials, "len(certHashes) != 0", edgeCmp(func(b *ssa.BinOp) bool {
-			n, ok := constInt(b.Y)
-			call, _ := b.X.(*ssa.Call)
-			return ok && n == 0 && b.Op == token.EQL && call != nil && calleeKey(call) == "builtin.len" && isResultOfCall(call.Call.Args[0], 0, wtPkg+".extractCertHashes") != nil
-		}, false), nil)
+		r5.guard(f, "t.dial", dials, "len(certHashes) != 0", edgeIntBound(func(v ssa.Value) bool {
+			call, _ := v.(*ssa.Call)
+			return call != nil && calleeKey(call) == "builtin.len" && isResultOfCall(call.Call.Args[0], 0, wtPkg+".extractCertHashes") != nil
+		}, 1, intInf, true), nil)
 		r5.guard(f, "t.dial", dials, "extractCertHashes err==nil", edgeNil(isCallResult(1, wtPkg+".extractCertHashes"), true), nil)
 		for _, d := range dials {
 			a := callArgs(d.(ssa.CallInstruction))
@@ -545,11 +540,8 @@ func checkC18(c *Ctx, r *Report) {
 							return false
 						}
 						w1, _ := (&Cut{Fn: cb, TargetEdge: edgeSet(es), EdgeCut: edgeBool(func(y ssa.Value) bool { return isResultOfCall(y, 0, "bytes.Equal") != nil }, true)}).Run(c)
-						w2, _ := (&Cut{Fn: cb, TargetEdge: edgeSet(es), EdgeCut: edgeCmp(func(b *ssa.BinOp) bool {
-							fx, _ := loadOfField(strip2(b.X))
-							fy, _ := loadOfField(strip2(b.Y))
-							return b.Op == token.EQL && fx != nil && fy != nil && fx.Name() == "Code" && fy.Name() == "Code"
-						}, true)}).Run(c)
+						w2, _ := (&Cut{Fn: cb, TargetEdge: edgeSet(es), EdgeCut: eqEdge(func(v ssa.Value) bool { fl, _ := loadOfField(strip2(v)); return fl != nil && fl.Name() == "Code" },
+							func(v ssa.Value) bool { fl, _ := loadOfField(strip2(v)); return fl != nil && fl.Name() == "Code" }, true)}).Run(c)
 						return w1 == "" && w2 == ""
 					case *ssa.Call:
 						return calleeKey(x) == "slices.ContainsFunc"
